@@ -294,6 +294,7 @@ func Run(c *vl.Ctx) {
 	pool := fe.NewPool(c.W, filepath.Join(c.Repo, "ferret_libs"), 16)
 	defer pool.Close()
 	rn := run.New(c)
+	rn.Fast = os.Getenv("VERIF_NOFAST") == ""
 	var evals int64
 	var mu sync.Mutex
 	single := func(k *lcase) *fe.Result {
@@ -369,7 +370,7 @@ func Run(c *vl.Ctx) {
 		// a mismatching line is confirmed on a single-literal program before it is reported;
 		// if the pack as a whole cannot be judged (compile failure, wrong line count) every
 		// literal is decided alone.
-		exec := func(ks []*lcase) (out []string, detail string) {
+		execOn := func(rn *run.Runner, ks []*lcase) (out []string, detail string) {
 			src, _ := program(p.t, ks)
 			dir := rn.NewDir()
 			defer os.RemoveAll(dir)
@@ -387,7 +388,8 @@ func Run(c *vl.Ctx) {
 			return out, ""
 		}
 		alone := func(k *lcase) {
-			out, detail := exec([]*lcase{k})
+			// decided by the ferret binary
+			out, detail := execOn(rn.Real(), []*lcase{k})
 			if out != nil && out[0] != k.v.String() {
 				detail = fmt.Sprintf("want %s got %s", k.v.String(), out[0])
 			}
@@ -398,7 +400,7 @@ func Run(c *vl.Ctx) {
 				c.Count("values_observed", 1)
 			}
 		}
-		out, _ := exec(runnable)
+		out, _ := execOn(rn, runnable)
 		for i, k := range runnable {
 			if out == nil || out[i] != k.v.String() {
 				alone(k)
